@@ -4,7 +4,9 @@ passing tests with /root/.vp/BASELINE.json stable_pass.   usage: baseline_cmp.py
 import json, os, subprocess, sys
 repo = sys.argv[1] if len(sys.argv) > 1 else "/repo"
 env = dict(os.environ, GOFLAGS="-mod=mod", GOPROXY="off", GOSUMDB="off", GOTOOLCHAIN="local")
-p = subprocess.run(["go", "test", "-json", "-vet=off", "-count=1", "-timeout", "25m", "./..."], cwd=repo, env=env,
+# VERIF_TEST_CACHE=1: let go reuse cached results of packages whose inputs did not change (used when confirming seeded changes)
+cnt = [] if os.environ.get("VERIF_TEST_CACHE") == "1" else ["-count=1"]
+p = subprocess.run(["go", "test", "-json", "-vet=off"] + cnt + ["-timeout", "60m", "./..."], cwd=repo, env=env,
                    stdout=subprocess.PIPE, stderr=subprocess.DEVNULL)
 passed, failed = set(), set()
 for line in p.stdout.decode("utf-8", "replace").split("\n"):
